@@ -87,6 +87,7 @@ type Teamserver struct {
 	}
 
 	Agents    agent.Agents
+	AgentsMtx sync.Mutex
 	Listeners []*Listener
 	Endpoints []*Endpoint
 
